@@ -15,7 +15,7 @@ LEVEL_TEXT = ("Runtime monitoring of calc_cross_sections on the real solvers: a 
 LEVEL_NOTE = "Trusted: numpy Gauss-Legendre nodes, scipy Bessel functions inside the reference series (validated against mpmath)."
 TECHNIQUE = "runtime monitoring: contract monitor on calc_cross_sections + cross-entry-point relational oracle (optical theorem, quadrature of the recorded scattering matrix, reference series)"
 RULE = ("sphere: (m,x) as in C02 with x log-uniform 1e-3..500 plus decades; layered: 2-4 layers; rayleigh: x in [1e-3,0.02]; "
-        "ms1: one-sphere clusters x in [0.1,15] (dblquad asymmetry, slow). non-trivial = cext > 0 finite and all relations "
+        "ms1: one-sphere clusters x in [0.1,15] (dblquad asymmetry, slow), truncation tolerances down to 1e-30, 0 and negative (refused or accurate). non-trivial = cext > 0 finite and all relations "
         "evaluated; distinct by rounded case JSON")
 ASSUMPTIONS = ["Multisphere compared only inside its validity range (x <= 15 here)",
                "'vanishes for a real index' is read as |cabs| <= 1e-10 cext (cabs is computed as a difference of two sums)"]
